@@ -81,6 +81,11 @@ def context_section(tier, seed):
         for f in ('table', 'cxt', 'csv', 'python-literal', 'fimi', 'wikitable'):
             sec['tostring:' + f] = err(lambda: c.tostring(frmat=f))
         sec['str(context)'] = mask(str(c))
+        # dict form before the lattice exists: key order and repr are observable too
+        sec['todict without lattice'] = err(lambda: [list(c.todict(ignore_lattice=True)), repr(c.todict(ignore_lattice=True)),
+                                                     list(c.todict(ignore_lattice=None)), list(c.todict(ignore_lattice=None).items())[0][0]])
+        buf0 = io.StringIO()
+        sec['tojson unsorted without lattice'] = err(lambda: (c.tojson(buf0, sort_keys=False, ignore_lattice=True), buf0.getvalue())[1])
         sec['todict'] = err(lambda: json.dumps(c.todict(), sort_keys=False))
         buf = io.StringIO()
         sec['tojson'] = err(lambda: (c.tojson(buf), buf.getvalue())[1])
@@ -89,6 +94,9 @@ def context_section(tier, seed):
                                  [l.index for l in x.lower_neighbors], list(x.objects), list(x.properties), [a.index for a in x.atoms]]
                                 for x in lat]
         sec['str(lattice)'] = mask(str(lat))
+        buf1 = io.StringIO()
+        sec['dict keys with lattice'] = err(lambda: [list(c.todict()), list(c.todict(ignore_lattice=None)), list(c.todict(ignore_lattice=True)),
+                                                     (c.tojson(buf1, sort_keys=False, indent=1), buf1.getvalue())[1]])
         sec['python-literal with lattice'] = err(lambda: c.tostring(frmat='python-literal'))
         n = len(lat)
         seeds = [r.randrange(n) for _ in range(5)]
